@@ -34,9 +34,10 @@ func main() {
 	seed := envSeed()
 	start := time.Now()
 	res := NewResult(prop, *tier, seed)
-	run(res, *tier, NewRand(seed*0x9E3779B97F4A7C15+uint64(len(prop))), *replay)
 	if *out == "" {
 		*out = "/dev/stdout"
 	}
+	StartWatchdog(res, *out, start, 12<<30, 5*time.Minute)
+	run(res, *tier, NewRand(seed*0x9E3779B97F4A7C15+uint64(len(prop))), *replay)
 	res.Write(*out, start)
 }
